@@ -80,6 +80,18 @@ CLAIMED = {
         text="MCGeomTarget checks over 4 detector altitudes x 3 limb angles x source altitudes -90..+10 deg in 0.25 deg steps that every kept direction closes the Earth-centre/detector/spot triangle (spot on the surface, emergence angle = angle above the local horizontal), that the keep rule is the conjunction of its masks, and that Dark is monotone in each threshold. Random configurations (source, start date 2016-2023, duration, N, detector lat/lon/altitude 5..36000 km, limb angle, thresholds) are thrown through throw and __call__; per instant TLC checks the time grid, the keep rule against the harness-computed source altitude, the triangle clauses on the reported beta/theta/path, return-array lengths, and the dark-sky boolean against harness-computed Sun/Moon altitudes and phase angle.",
         note="Assumes: astropy (coordinates, ephemerides, UTC) is the environment; booleans within 1e-9 rad of a threshold are inconclusive. 'Optical only / only removes' is decided by C03.",
         design="4/C13"),
+    "C08": dict(
+        category="model_checking",
+        technique="TLA+ spec Optical.tla (straight-line distance law, PE formula, range rule, effective-cone rule) with the cone rule model-checked on a lattice; kernel and EAS.__call__ events validated by TraceOptical.tla",
+        text="MCOptical checks on ratios {0, 1, 2-ulp, 2, 2+ulp, e, 10, 1e6, 1e300} that the effective angle is never smaller than the intrinsic one, never decreases with signal, jumps to sqrt(2 ln 2) just above 2 and that the max is never binding above 2. The same kernel events are evaluated for detectors at 33..36000 km and at the 525 km reference (ratio law to 1e-3 with distances from an independent straight-line formula; angle bit-identical); EAS batches with altitudes in and out of range (incl. +-0, 20 +- ulp) under four (area, efficiency, threshold, altitude) settings are traced with the kernel wrapped to log which events reach it: PE = density x area x efficiency (<=4 ulp), exact zero / cos(1.5 deg) outside the range without simulation, cone rule to 1e-12.",
+        note="Assumes: ratio-law tolerance 1e-3 because the kernel holds the angle and Earth radius in binary32.",
+        design="4/C08"),
+    "C09": dict(
+        category="model_checking",
+        technique="TLA+ spec Clouds.tla (kernel regimes; constant models; map lookup as altitude of the map pressure at a corner of the containing cell, on StdAtmosphere.tla) with the monthly maps as TLC constants; MCClouds lattice over the sphere; CphotAng.run(..., cloudf) and CloudTopHeight events validated by TraceClouds.tla",
+        text="MCClouds walks the sphere (0.25 deg x 0.625 deg incl. poles, +-180 deg, longitudes up to +-360 deg) and shows the cell predicate total and the regimes exhaustive. Kernel events use cloud tops at -inf, first segment -ulp / exact / +ulp, an inner segment, penultimate segment exact / +ulp, last segment and +inf (segment altitudes from the public slant_depth / valid_arrays): bit-identical below, exactly zero above. The cloud models are called on sphere lattices and on ground positions produced by the geometry stage; for the monthly maps (read with astropy.io.fits and exported to TLC) the returned altitude must equal the standard-atmosphere altitude of one of the four corner pressures of the containing cell.",
+        note="Assumes: the value in the 'in between' regime is checked here only for finiteness and sign; its numerical value is the business of Cherenkov.tla (C06). Any corner of the containing cell conforms.",
+        design="4/C09"),
 }
 
 NOT_BUILT_REASON = "not claimed yet: its specification module and binding are not finished in this tree (see DESIGN.md section 9 build order); no other technique is substituted"
